@@ -59,6 +59,18 @@ def test_mandatory_option_required(
                 " required."
             )
         )
+    # A blank value would be written as a notice without a holder (or a
+    # contributor line without a name), which is not read back as given.
+    for option, values in (
+        ("--copyright", copyright_),
+        ("--contributor", contributor),
+    ):
+        if any(not value.strip() for value in values or ()):
+            raise click.UsageError(
+                _("Option '{option}' requires a non-empty value.").format(
+                    option=option
+                )
+            )
 
 
 def all_paths(
